@@ -214,10 +214,11 @@ theorem processInput_content (sch : Schema) (s : Suite) (sel : Option (String ×
           exact ⟨k, by simp [content, ht, h2]⟩
     · cases h
 
-theorem processCalls_spec (sch : Schema) (s : Suite) (sel : Option (String × String))
-    (cs : List (Nat × Dict)) (h : processCalls sch s sel = .ok cs) :
-    ∃ inFields items k, processInput sch (clearAt s (affectedIdx sch)) sel = .ok (inFields, items)
-      ∧ items = content (clearAt s (affectedIdx sch)) k
+theorem processCalls_spec (sch : Schema) (s : Suite) (sel : Option (String × String)) (src : Option Suite)
+    (cs : List (Nat × Dict)) (h : processCalls sch s sel src = .ok cs) :
+    ∃ inFields items k,
+      processInput sch (match src with | none => clearAt s (affectedIdx sch) | some q => q) sel = .ok (inFields, items)
+      ∧ items = content (match src with | none => clearAt s (affectedIdx sch) | some q => q) k
       ∧ cs.length = items.length
       ∧ ∀ (i : Nat) (r : Row), items[i]? = some r → ∃ c, cs[i]? = some (c, keysOf inFields r) := by
   unfold processCalls at h
@@ -236,8 +237,8 @@ theorem processM_bad_selector (sch : Schema) (s : Suite) (b : Int) (g : Bool) (s
     (tb col : String)
     (hbad : tableIndex sch tb = none
       ∨ ∃ ts, sch.find? (fun t => t.name == tb) = some ts ∧ ts.fields.any (fun f => f.name == col) = false) :
-    processM sch s b g script (some (tb, col)) = (s, some .itsdbError)
-    ∧ processCalls sch s (some (tb, col)) = .error .itsdbError := by
+    ∀ src : Option Suite, processM sch s b g script (some (tb, col)) src = (s, some .itsdbError)
+    ∧ processCalls sch s (some (tb, col)) src = .error .itsdbError := by
   have hin : ∀ s' : Suite, processInput sch s' (some (tb, col)) = .error .itsdbError := by
     intro s'
     unfold processInput selectorOf
@@ -248,7 +249,8 @@ theorem processM_bad_selector (sch : Schema) (s : Suite) (b : Int) (g : Bool) (s
       cases tableIndex sch tb with
       | none => rfl
       | some k => simp [h2]
-  refine ⟨by unfold processM; rw [hin], ?_⟩
+  intro src
+  refine ⟨by unfold processM inputOf; rw [hin], ?_⟩
   unfold processCalls
   rw [hin]
   simp [selectorOf]
@@ -256,6 +258,100 @@ theorem processM_bad_selector (sch : Schema) (s : Suite) (b : Int) (g : Bool) (s
 /-- a table whose `_rows` holds a placeholder beyond the end of its file (a state the code before 382c450
 reached through a length-changing slice assignment) -/
 def misalignedWitness : T := { rows := [none, none], pers := 2, vol := 2, file := [[1]], gz := false, width := 1 }
+
+theorem commitAll_files (b b' : Suite) (hb : AllAligned b) (hc : commitAll b = (b', none)) :
+    b'.map (·.file) = b.map abs := by
+  obtain ⟨s', hc', _, _, hm⟩ := commitAll_refines b hb
+  rw [hc] at hc'
+  injection hc' with hc' _
+  subst hc'
+  have := congrArg (List.map (·.stored)) hm
+  simpa [List.map_map, Function.comp_def, absS] using this
+
+theorem adoptFiles_files (disk a : Suite) (hl : a.length = disk.length) :
+    (adoptFiles disk a).map (·.file) = disk.map (·.file) := by
+  unfold adoptFiles
+  induction disk generalizing a with
+  | nil => simp
+  | cons d ds ih =>
+    cases a with
+    | nil => simp at hl
+    | cons t ts =>
+      simp only [List.zipWith_cons_cons, List.map_cons]
+      rw [ih ts (by simpa using hl)]
+
+theorem reloadAll_abs (s : Suite) : (reloadAll s).map abs = s.map (·.file) := by
+  simp only [reloadAll, List.map_map]
+  apply List.map_congr_left
+  intro t _
+  exact abs_sync t
+
+theorem reloadAll_clean (s : Suite) : AllAligned (reloadAll s) ∧ inTransactionS (reloadAll s) = false := by
+  refine ⟨(reloadAll_refines s).1, ?_⟩
+  simp only [inTransactionS, reloadAll, List.any_map, List.any_eq_false]
+  intro t _
+  simp [sync_not_inTransaction t]
+
+theorem aligned_no_dangling (t : T) (h : Aligned t) :
+    (∀ i, getItem t i ≠ .error .itsdbError) ∧ (∀ x ∈ resolve t.rows t.file, x ≠ none) := by
+  refine ⟨?_, resolve_ne_none t.rows t.file (Aligned.nd h)⟩
+  intro i
+  rw [getItem_eq t i h]
+  unfold pyGetItem
+  split <;> simp
+
+theorem keysOf_append (inFields : List FieldS) (r : Row) (f : FieldS) (c : Nat) (hlen : r.length = inFields.length) :
+    keysOf (inFields ++ [f]) (r ++ [c]) = keysOf inFields r ++ (if f.isKey then [(f.name, c)] else []) := by
+  unfold keysOf
+  rw [List.zip_append (by omega)]
+  simp only [List.filterMap_append, List.zip_cons_cons, List.zip_nil_right, List.filterMap_cons, List.filterMap_nil]
+  split <;> simp_all
+
+theorem augment_iid (m : List (Nat × Nat)) (inFields : List FieldS) (r : Row) (hlen : r.length = inFields.length)
+    (h1 : hasKey inFields "i-id" = false) (h2 : hasKey inFields "parse-id" = true) :
+    ∃ f' r', augmentInput m inFields [r] = (f', [r'])
+      ∧ iidCellOf (keysOf f' r')
+          = (mapLookup m (r.getD (inFields.findIdx (fun f => f.isKey && f.name == "parse-id")) cNone)).getD (encInt (-1)) := by
+  unfold augmentInput
+  rw [h1, h2]
+  simp only [Bool.not_true, Bool.or_self, Bool.false_eq_true, if_false, List.map_cons, List.map_nil]
+  refine ⟨_, _, rfl, ?_⟩
+  rw [keysOf_append inFields r _ _ hlen]
+  unfold iidCellOf dget
+  simp
+
+theorem commitNl_eq (t : T) (nl : Bool) (h : Aligned t) : commitNl t nl = commit t := by
+  cases nl with
+  | true => unfold commitNl commit; simp
+  | false =>
+    obtain ⟨t', hc⟩ := commit_total t h
+    obtain ⟨ht', hg⟩ := commit_ok t t' h hc
+    rw [hc]
+    unfold commitNl
+    unfold commit at hc
+    by_cases htx : inTransaction t = true
+    · rw [if_pos htx] at hc ⊢
+      simp only [Bool.false_eq_true, and_false, if_false]
+      by_cases hv : t.vol ≥ (t.pers : Int) ∧ t.gz = false
+      · rw [ht', hg hv.2, hv.2]
+        simp
+      · rw [if_neg hv] at hc
+        exact hc
+    · rw [if_neg htx] at hc ⊢
+      exact hc
+
+theorem commitAllNl_eq (s : Suite) (h : AllAligned s) : ∀ nls, commitAllNl s nls = commitAll s := by
+  induction s with
+  | nil => intro nls; rfl
+  | cons t ts ih =>
+    intro nls
+    simp only [commitAllNl, commitAll]
+    rw [commitNl_eq t _ (h t (by simp)), ih (fun u hu => h u (by simp [hu]))]
+
+/-- three stored rows loaded by suite A; suite B commits a table with one row -/
+def staleWitness : Suite :=
+  adoptFiles [sync { rows := [], pers := 0, vol := 0, file := [[1]], gz := false, width := 1 }]
+    [sync { rows := [], pers := 0, vol := 0, file := [[1], [2], [3]], gz := false, width := 1 }]
 
 end L
 end Verif.C10
